@@ -253,6 +253,29 @@ def bounded(b):
             got = {(int(r), int(c)): int(arr[r, c]) for r, c in zip(*np.nonzero(arr))}
             b.case("roll/object_inputs_show_every_part", arr.shape == (M, N) and got == cells, case, "shape %r (expected %r); the note of pitch 60 fills columns %r, it sounds until %.2f s" % (
                 arr.shape, (M, N), sorted(c for (r, c) in got if r == 60), want_end))
+    # a PerformedPart with its own clock in tick units, and a Performance asked again after its pedal threshold was changed
+    for ppq_, mpq_ in ((4, 1000000), (8, 250000)):
+        pp = pf.PerformedPart([dict(id="n0", midi_pitch=60, note_on=0.0, note_off=1.5, velocity=80, track=0, channel=0), dict(id="n1", midi_pitch=67, note_on=2.0, note_off=2.5, velocity=50, track=0, channel=0)],
+                              id="P0", ppq=ppq_, mpq=mpq_)
+        case = {"input": "PerformedPart", "ppq": ppq_, "mpq": mpq_, "time_unit": "tick"}
+        ok, res = b.guard("roll/no_exception", case, lambda: compute_pianoroll(pp, time_unit="tick", time_div=1, remove_silence=False))
+        if ok:
+            tk = lambda s_: int(round(1e6 * ppq_ * s_ / mpq_))
+            M, N, cells, _ = raster([(60, tk(0.0), tk(1.5) - tk(0.0), 80), (67, tk(2.0), tk(2.5) - tk(2.0), 50)], 1, False, False, -1, 0, False, False, None, False, True)
+            arr = res.toarray()
+            got = {(int(r), int(c)): int(arr[r, c]) for r, c in zip(*np.nonzero(arr))}
+            b.case("roll/object_inputs_show_every_part", arr.shape == (M, N) and got == cells, case, "shape %r, in ticks of the part's own clock the notes span %r" % (arr.shape, (M, N)))
+    perf2 = pf.Performance([pf.PerformedPart([dict(id="n0", midi_pitch=60, note_on=0.0, note_off=1.0, velocity=80, track=0, channel=0), dict(id="n1", midi_pitch=67, note_on=2.0, note_off=3.0, velocity=50, track=0, channel=0)],
+                                             controls=[dict(number=64, time=0.5, value=100, track=0, channel=0), dict(number=64, time=2.0, value=0, track=0, channel=0)], id="P0")])
+    case = {"input": "Performance", "sequence": "roll, then sustain_pedal_threshold = 127, then roll again"}
+    ok, r1 = b.guard("roll/no_exception", case, lambda: compute_pianoroll(perf2, time_unit="sec", time_div=4, remove_silence=False).toarray())
+    if ok:
+        perf2[0].sustain_pedal_threshold = 127
+        ok, r2 = b.guard("roll/no_exception", case, lambda: compute_pianoroll(perf2, time_unit="sec", time_div=4, remove_silence=False).toarray())
+        if ok:
+            M, N, cells, _ = raster([(60, 0.0, 1.0, 80), (67, 2.0, 1.0, 50)], 4, False, False, -1, 0, False, False, None, False, True)
+            got = {(int(r), int(c)): int(r2[r, c]) for r, c in zip(*np.nonzero(r2))}
+            b.case("roll/object_inputs_show_every_part", r2.shape == (M, N) and got == cells, case, "after the threshold was raised to 127 the note of pitch 60 still fills columns %r (it sounds for one second)" % sorted(c for (r, c) in got if r == 60))
     # drum channel filtering
     for ch in ([0, 9, 1], [9, 9, 0], [10, 9, 15], [8, 11, 9]):
         notes = [(60, 0.0, 1.0, 64), (36, 0.0, 1.0, 100), (62, 1.0, 1.0, 70)]
